@@ -637,3 +637,25 @@ Theorem squeeze_axis_list : forall (T : Type) (p : list (axis T)) (l : list Z),
   Ok (map snd (filter (fun ja => negb (zmem (fst ja) l) || nondegen (snd ja)) (positions 0 p))).
 Proof. exact (@squeeze_list). Qed.
 Print Assumptions squeeze_axis_list.
+
+(* ------------------------------------------------------------------ *)
+(* T3 (round 5).  Explicit limits are never discarded -- any number of grid points, in particular
+   ONE: whatever nonuniform_partition accepts has exactly the given min_pt / max_pt and the given
+   coordinates; for a one-point axis the missing limits default to the point itself and the
+   result is a valid partition iff the point lies between the limits. *)
+Theorem nonuniform_partition_keeps_given_limits :
+  forall (cs : list R) (lo hi : R) (omin omax : option R) (fl : bool * bool) (ax : axis R),
+  nonuniform_axis cs omin omax fl = Ok ax ->
+  (omin = Some lo -> a_lo ax = lo) /\ (omax = Some hi -> a_hi ax = hi) /\ a_cs ax = cs.
+Proof. exact nonuniform_given_limits_kept. Qed.
+Print Assumptions nonuniform_partition_keeps_given_limits.
+Theorem nonuniform_partition_single_point_with_limits :
+  forall (c : R) (omin omax : option R) (fl : bool * bool),
+  (omin <> None -> fst fl = false) -> (omax <> None -> snd fl = false) ->
+  nonuniform_axis [c] omin omax fl = Ok (mkAxis (or_default omin c) (or_default omax c) [c]).
+Proof. exact nonuniform_single_limits. Qed.
+Theorem single_point_axis_is_valid : forall c lo hi : R, lo <= c <= hi -> valid (mkAxis lo hi [c]).
+Proof. exact single_point_axis_valid. Qed.
+Theorem fromgrid_single_point_with_both_limits : forall c lo hi : R,
+  fromgrid_axis [c] (Some lo) (Some hi) = Ok (mkAxis lo hi [c]).
+Proof. exact fromgrid_axis_single_given. Qed.
